@@ -6,6 +6,7 @@ CONSTANTS
   MaxLong = 0
   MaxShort = 0
   MaxSnap = 0
+  StableUpTo = 20
   Large = 99
 INVARIANT Done
 PROPERTIES TProps
